@@ -32,6 +32,13 @@ struct CtlState {
 pub struct Ctl {
     st: Mutex<CtlState>,
     cv: Condvar,
+    /// true: this controller drives a `Buffered`, false: a `Pipe`; points of the other
+    /// family (e.g. from a thread an earlier case leaked) are ignored
+    buffered: bool,
+}
+
+fn is_buf_point(p: Point) -> bool {
+    matches!(p, Point::BufBeforeTake | Point::BufGot | Point::BufSent | Point::BufExit)
 }
 
 fn blocking(p: Point) -> bool {
@@ -51,6 +58,9 @@ fn blocking(p: Point) -> bool {
 
 impl Monitor for Ctl {
     fn at(&self, ev: Event) {
+        if is_buf_point(ev.point) != self.buffered {
+            return;
+        }
         let mut st = self.st.lock().unwrap();
         if st.free {
             if matches!(ev.point, Point::PipeEnd | Point::PipeExit | Point::BufExit) {
@@ -87,8 +97,8 @@ pub enum After {
 }
 
 impl Ctl {
-    pub fn new() -> Arc<Ctl> {
-        Arc::new(Ctl { st: Mutex::new(CtlState::default()), cv: Condvar::new() })
+    pub fn new(buffered: bool) -> Arc<Ctl> {
+        Arc::new(Ctl { st: Mutex::new(CtlState::default()), cv: Condvar::new(), buffered })
     }
 
     pub fn install(self: &Arc<Self>) {
@@ -241,7 +251,7 @@ fn code_of(p: Point) -> i64 {
 /// the iterator (`None`: consumes everything).
 pub fn run_pipe_controlled(xs: &[i64], w: usize, choices: &[usize], dropk: Option<usize>) -> PipeRun {
     let n = xs.len();
-    let ctl = Ctl::new();
+    let ctl = Ctl::new(false);
     ctl.install();
     let pulled = Arc::new(AtomicUsize::new(0));
     let counts: Arc<Vec<AtomicUsize>> = Arc::new((0..n).map(|_| AtomicUsize::new(0)).collect());
@@ -447,7 +457,7 @@ impl Iterator for CountingIdx {
 /// Run the real `Buffered` over `0..n` with the given channel capacity under the
 /// schedule `choices` (mirrors `brun_sched`).
 pub fn run_buffered_controlled(n: usize, cap: usize, choices: &[usize], dropk: Option<usize>) -> BufRun {
-    let ctl = Ctl::new();
+    let ctl = Ctl::new(true);
     ctl.install();
     let pulled = Arc::new(AtomicUsize::new(0));
     let upstream = CountingIdx { n, pos: 0, pulled: pulled.clone() };
